@@ -236,7 +236,9 @@ def e2e(ctx):
     os.makedirs(os.path.join(fw.BUILD, "tmp"), exist_ok=True)
     d = tempfile.mkdtemp(prefix="c12-", dir=os.path.join(fw.BUILD, "tmp"))
     try:
-        names = ["a", "b", "ab", "a.b", ".a", "a]", "[a", "a-b", "!a", "A", "aB", "a\nb", "^a", "a\\b", "*", "?", "[ab]", "a b"]
+        names = ["a", "b", "ab", "a.b", ".a", "a]", "[a", "a-b", "!a", "A", "aB", "a\nb", "^a", "a\\b", "*", "?", "[ab]", "a b",
+                 # the symbols POSIX counts as punctuation but Unicode does not; names on which a backtracking matcher gives up
+                 "x=y", "x$y", "x+y", "x^y", "x|y", "x~y", "x<y", "x>y", "x`y", "x!y", "xzy", "a" * 60, "aaaaaab" + "a" * 100]
         os.mkdir(os.path.join(d, "r"))
         for n in names:
             open(os.path.join(d, "r", n), "wb").close()
@@ -251,7 +253,8 @@ def e2e(ctx):
                 "*/ab", "r*b", "*a*", "[[:upper:]]*", "L?", "../*", "/*", "*[!a-z]", "!a", "^a", "a\\\\b", "[]a]*", "[a-]*", "sub/*", "*e", "now*"]
         n = len(pats) if ctx.thorough else 18
         bad = []
-        for p in rng.sample(pats, n):
+        always = ["x[[:punct:]]y", "x[![:punct:]]y", "*a*a*a*a*a*a*b", "*a*a*a*a*a*b*", "*a*a*a*a*a*a*a*a*a"]
+        for p in rng.sample(pats, n) + always:
             for flag, ci, subj in (("-name", 0, "base"), ("-iname", 1, "base"), ("-path", 0, "path"), ("-ipath", 1, "path"), ("-lname", 0, "link"), ("-ilname", 1, "link")):
                 args = ["r", flag, p, "-print0"]
                 line = "find - %s %s" % (fw.hexs(d.encode()), xc.hexlist([a.encode() for a in args]))
